@@ -83,6 +83,8 @@ def est_spec(draw, classes=None, n_max=12, d_max=4, k_max=3, hidden_max=4, iter_
     s = {"cls": cls, "n": n, "d": d, "n_clusters": K, "max_iter": draw(st.integers(1, iter_max)),
          "solver": draw(st.sampled_from(["sgd", "adam"])), "random_state": draw(st.integers(0, 10 ** 6)),
          "x": {"d": d, "xseed": draw(gens.seeds), "xkind": draw(st.sampled_from(list(xkinds)))}}
+    if draw(st.integers(0, 5)) == 0:
+        s["verbose"] = True  # stdout is discarded by the harness; verbose branches are code paths too
     if not default_lr:
         s["learning_rate"] = draw(st.sampled_from(list(lr)))
     if cls not in NO_BATCH_ARG and batch_sizes:
@@ -185,7 +187,7 @@ def uses_precomputed(s):
 def build(s, X=None):
     """Returns (estimator, y) where y is the matrix to pass as second argument of fit/score (None unless precomputed)."""
     cls = s["cls"]
-    kw = {k: s[k] for k in ("n_clusters", "max_iter", "learning_rate", "solver", "batch_size", "random_state", "reg",
+    kw = {k: s[k] for k in ("n_clusters", "max_iter", "learning_rate", "solver", "batch_size", "random_state", "reg", "verbose",
                             "n_hidden_dim", "alpha", "groups", "dynamic", "M", "n_cuts", "temperature", "ovo") if k in s}
     if s.get("groups") is not None:
         kw["groups"] = [list(g) for g in s["groups"]]
@@ -208,7 +210,7 @@ def build(s, X=None):
         key = "kernel" if cls in MMD_CLASSES else "metric"
         if a["form"] == "named":
             kw[key] = a["name"]
-            kw[key + "_params"] = a["params"] or None
+            kw[key + "_params"] = dict(a["params"]) if a["params"] else None  # a fresh dict per estimator
         elif a["form"] == "callable":
             kw[key] = gens.callable_affinity(a)
         else:
@@ -218,7 +220,7 @@ def build(s, X=None):
         bk = s["base_kernel"]
         if bk["form"] == "named":
             kw["base_kernel"] = bk["name"]
-            kw["base_kernel_params"] = bk["params"] or None
+            kw["base_kernel_params"] = dict(bk["params"]) if bk["params"] else None
         else:
             kw["base_kernel"] = kernel2(bk)
     if cls == "Douglas" and s.get("feature_mask") is not None:
@@ -271,6 +273,8 @@ def kauri_spec(draw, n_max=30, d_max=4, kinds=("grid", "normal", "offset", "grid
                     "aseed": draw(gens.seeds)},
          "random_state": draw(st.integers(0, 10 ** 6)),
          "x": {"d": d, "xseed": draw(gens.seeds), "xkind": draw(st.sampled_from(list(kinds)))}}
+    if draw(st.integers(0, 5)) == 0:
+        s["verbose"] = True
     return s
 
 
@@ -321,7 +325,7 @@ def build_kauri(s, X=None):
         X = build_kauri_data(s)
     k = s["kernel"]
     kw = {key: s[key] for key in ("max_clusters", "max_depth", "min_samples_split", "min_samples_leaf", "max_features",
-                                   "max_leaves", "random_state")}
+                                   "max_leaves", "random_state", "verbose") if key in s}
     y = None
     if k["form"] == "named":
         kw["kernel"] = k["name"]
